@@ -126,4 +126,55 @@ mod verif_standins {
             }
         }
     }
+
+    /// C14: no published commitment scalar is the commitment scalar of a hidden slot: for every response z of every
+    /// sub-proof, every secret m of the customer and every published scalar s, z - c*m != s (otherwise (z - s)/c = m is exposed)
+    #[test]
+    fn standin_no_hidden_slot_exposed() {
+        use crate::CLOSE_SCALAR;
+        use bls12_381::Scalar;
+        let mut rng = rng();
+        let m = merchant::Config::new(&mut rng);
+        let cfg = m.to_customer_config();
+        for (merch, cust, pay) in [(0u64, 100u64, 10i64), (50, 50, -7), (9, 1, 0)] {
+            let id = cid(&mut rng, &m);
+            let old = State::new(&mut rng, id, MerchantBalance::try_new(merch).unwrap(), CustomerBalance::try_new(cust).unwrap());
+            let ectx = Context::new(b"standin establish");
+            let (eproof, _, pt_bf) = EstablishProof::new(&mut rng, &cfg, &old, &ectx);
+            // establish: challenge from the public close-tag slot of the close-state proof
+            {
+                let zc = eproof.close_state_proof.conjunction_response_scalars();
+                let zs = eproof.state_proof.conjunction_response_scalars();
+                let c = (zc[1] - eproof.close_tag_commitment_scalar) * CLOSE_SCALAR.invert().unwrap();
+                let published = [eproof.channel_id_commitment_scalar, eproof.close_tag_commitment_scalar, eproof.customer_balance_commitment_scalar, eproof.merchant_balance_commitment_scalar];
+                let secrets = [("nonce", old.nonce().as_scalar()), ("revocation lock", old.revocation_lock().to_scalar())];
+                for (zi, z) in zs.iter().chain(zc.iter()).enumerate() {
+                    for (what, sec) in secrets.iter() {
+                        assert!(!published.contains(&(*z - c * sec)), "STANDIN EstablishProof::new: the {} is exposed: (response {} - a published commitment scalar) / challenge", what, zi);
+                    }
+                }
+            }
+            let (vs, _) = eproof.verify(&m, &EstablishProofPublicValues { channel_id: id, merchant_balance: old.merchant_balance(), customer_balance: old.customer_balance() }, &ectx).expect("STANDIN: honest establish proof rejected");
+            let token = BlindedPayToken::sign(&mut rng, &m, vs).unblind(pt_bf);
+            let amount = if pay >= 0 { PaymentAmount::pay_merchant(pay as u64).unwrap() } else { PaymentAmount::pay_customer((-pay) as u64).unwrap() };
+            let new = old.apply_payment(&mut rng, amount).unwrap();
+            let ctx = Context::new(b"standin pay");
+            let (proof, _) = PayProof::new(&mut rng, &cfg, token, &old, &new, &ctx);
+            let zc = proof.close_state_proof.conjunction_response_scalars();
+            let c = (zc[1] - proof.close_tag_commitment_scalar) * CLOSE_SCALAR.invert().unwrap();
+            let published = [proof.old_nonce_commitment_scalar, proof.close_tag_commitment_scalar];
+            let secrets = [
+                ("channel id", id.to_scalar()), ("new nonce", new.nonce().as_scalar()), ("new revocation lock", new.revocation_lock().to_scalar()),
+                ("old revocation lock", old.revocation_lock().to_scalar()), ("new customer balance", new.customer_balance().to_scalar()),
+                ("new merchant balance", new.merchant_balance().to_scalar()), ("old customer balance", old.customer_balance().to_scalar()), ("old merchant balance", old.merchant_balance().to_scalar()),
+            ];
+            let all: Vec<Scalar> = proof.state_proof.conjunction_response_scalars().iter().chain(zc.iter())
+                .chain(proof.old_pay_token_proof.conjunction_response_scalars().iter()).chain(proof.old_revocation_lock_proof.conjunction_response_scalars().iter()).copied().collect();
+            for (zi, z) in all.iter().enumerate() {
+                for (what, sec) in secrets.iter() {
+                    assert!(!published.contains(&(*z - c * sec)), "STANDIN PayProof::new: the {} is exposed: it equals (response {} - a published commitment scalar) / challenge", what, zi);
+                }
+            }
+        }
+    }
 }
